@@ -788,6 +788,10 @@ func (ex *Ex) relevantAxioms(asserts []*T, heap map[string]*T) []*T {
 			})
 			if rel {
 				used[ax] = true
+				if w.UsedAxioms == nil {
+					w.UsedAxioms = map[string]bool{}
+				}
+				w.UsedAxioms[ax.Name] = true
 				out = append(out, t)
 				collect([]*T{t})
 				changed = true
